@@ -27,7 +27,7 @@ inductive SigRel (Γ : List (Nat × Nat)) : Sig → Sig → Prop
 /-- A predicate-call semantics that treats its consumer's reasons as opaque tokens: related
     consumers give related runs, for every relation that relates the faults a call can raise itself
     to themselves. -/
-def FaultRefl (ρ : Sig → Sig → Prop) : Prop := ρ .oof .oof ∧ ∀ e, ρ (.exn e) (.exn e)
+def FaultRefl (ρ : Sig → Sig → Prop) : Prop := ρ .oof .oof ∧ (∀ e, ρ (.exn e) (.exn e)) ∧ ρ .stop .stop
 
 def Parametric (q : Q) : Prop :=
   ∀ ρ, FaultRefl ρ → ∀ name args (K1 K2 : K), (∀ w, RelR ρ (K1 w) (K2 w)) →
@@ -362,7 +362,7 @@ theorem comp_correct (q : Q) (hq : Parametric q) (env : Env) (b : Body) (ks : Li
   case case8 name args n =>
     refine ⟨Nat.le_refl _, fun d hs k hk w => ?_⟩
     simp only [execList_single, exec_foreach, solveS, solve, pairs, exec_yieldF]
-    apply hq (SigRel []) ⟨.oof, fun e => .exn e⟩
+    apply hq (SigRel []) ⟨.oof, fun e => .exn e, .stop⟩
     intro w'
     exact RelR.refl_ext _ k hk w'
   case case9 n name args k0 ks c n' hx ih =>
@@ -370,7 +370,7 @@ theorem comp_correct (q : Q) (hq : Parametric q) (env : Env) (b : Body) (ks : Li
     refine ⟨ih.1, fun d hs k hk w => ?_⟩
     have hs' : StackOK (k0 :: ks) d n := by simpa [StackOK, Src] using hs
     simp only [execList_single, exec_foreach, solveS, solve, pairs]
-    apply hq (SigRel (pairs (k0 :: ks) d)) ⟨.oof, fun e => .exn e⟩
+    apply hq (SigRel (pairs (k0 :: ks) d)) ⟨.oof, fun e => .exn e, .stop⟩
     intro w'
     exact ih.2 d hs' k hk w'
   case case10 n a b ks ih =>
